@@ -48,11 +48,8 @@ func init() {
 			c.Count("kind_" + kind)
 			g := wm.NewGen(r.Fork(), wm.DefaultGen())
 			specs := g.World()
-			// make sure there is an open path whose points can be moved
-			a, b2, c3 := g.Point(0.5), g.Point(0.5), g.Point(0)
-			movable := &wm.Spec{ID: g.NewID(b6.FeatureTypePath, b6.NamespaceOSMWay), Tags: []b6.Tag{{Key: "#highway", Value: b6.NewStringExpression("primary")}},
-				Path: []wm.Elem{{Ref: a.ID}, {Ref: c3.ID}, {Ref: b2.ID}}}
-			specs = append(specs, a, b2, c3, movable)
+			// points that can be moved: under an open path, and under an area (radially)
+			specs = append(specs, g.AddMovable()...)
 			model := wm.ModelOf(specs)
 			base, err := wm.Basic(specs, 1)
 			if err != nil {
@@ -165,17 +162,11 @@ func init() {
 					inLayer = map[b6.FeatureID]bool{}
 					continue
 				}
-				var op wm.Op
-				if r.Chance(0.25) {
-					// move a point of the movable open path (always valid)
-					p := model.F[core.Pick(r, []b6.FeatureID{a.ID, b2.ID, c3.ID})].Clone()
-					p.LL = g.Place(int64(r.Intn(200000))-100000, int64(r.Intn(200000))-100000)
-					op = wm.Op{Kind: "add", Spec: p}
-					if len(snaps) > 0 {
+				op := g.NextOp(model)
+				if op.Kind == "add" && op.Spec.ID.Type == b6.FeatureTypePoint && len(snaps) > 0 {
+					if old, ok := model.F[op.Spec.ID]; ok && old.LL != op.Spec.LL {
 						c.Count("moved_point_after_snapshot")
 					}
-				} else {
-					op = g.NextOp(model)
 				}
 				script = append(script, op.String())
 				target := op.ID
